@@ -108,8 +108,8 @@ CLAIMED = {
          "loop, regex/float/int/base64 behind raising contracts) and proved to raise nothing and to write nothing but element values of the addressed property; every "
          "other message kind is proved to be ignored without error; Router.process_message raises nothing for any conformant message, router state and sender; the "
          "TCP and TTY receive-loop iteration (decode, buffer, dispatch) raises nothing for any bytes read and hands each message to the router with the connection as sender.",
-    note="Trusted: PyVC + encoding; external converters raise only their documented exceptions; user event handlers do not raise; Buffer.process through its C11 contract; "
-         "serialisation abstracted (C07).",
+    note="Trusted: PyVC + encoding; external converters raise only their documented exceptions; user event handlers do not raise; Buffer.process through its C11 contract, whose exception-freedom part (process and the scan, "
+         "with the parser raising ANY exception) is re-discharged here on the real bodies; partial codecs (utf-8/ascii) in bytes.decode may raise UnicodeDecodeError; serialisation abstracted (C07).",
     technique="contract-based deductive verification: exception-freedom and frame VCs from the real AST by symbolic execution, z3; bounded native fault catalogue on every run (incl. number texts beyond the float range, which the real-number model cannot see)",
     design="4 C12"),
  "C14": dict(
@@ -153,10 +153,10 @@ CLAIMED = {
          "the invariant rule and every await havocked -- any data incl. EOF, an I/O error, cancellation -- and message handling allowed to raise anything; on EVERY exit it is "
          "proved that the connection was registered exactly once, is unregistered exactly once afterwards, its socket is closed exactly once (TCP), it leaves the server's "
          "connection list while the others stay, and the coroutine itself swallows the failure. The router half -- unregister_client forgets the client and its policy row and "
-         "leaves all others registered with their policies, register_client starts a peer with default policy, delivery only to registered clients -- are the C04/C05 mutator proofs.",
+         "leaves all others registered with their policies, register_client starts a peer with default policy, delivery exactly to the registered clients the policy lets through, for any registry -- are the C04/C05 router obligations, re-discharged under this check.",
     note="Trusted: cooperative-asyncio segment model (awaits havocked, no scheduler), writer.close/logger do not raise. Not covered: write errors surfacing in send tasks; "
-         "tasks queued before the close.",
-    technique="contract-based deductive verification: exceptional postconditions on all exits of the connection coroutine, loop invariant for the receive loop, z3",
+         "tasks queued before the close; router state kept in fields other than clients / blob_routing (bounded router-history stand-in only).",
+    technique="contract-based deductive verification: exceptional postconditions on all exits of the connection coroutine, loop invariant for the receive loop, router delivery postcondition for any registry, z3; bounded teardown and router-history stand-ins",
     design="4 C18"),
  "C19": dict(
     category="other",
@@ -186,8 +186,8 @@ CLAIMED = {
          "Vector.state_, Group.enabled, Element.value / set_value, Driver.send_message) are proved to send exactly the definition / deletion / update messages of their table row, serialised after "
          "the state change, in order, and to leave everything else untouched; the convergence lemma -- client step (the C15 reference step) applied to the messages (content per C07) turns the "
          "published view of the old state, or anything in the case of a definition, into the published view of the new state -- is discharged by z3 on the spec functions themselves for every "
-         "property kind, 0..3 elements and every enabled pattern; inheritance of groups is a ground obligation on the real metaclass. Delivery (fan-out, codec, framing, ordering) is cited from "
-         "C05/C03/C02/C19, writes from C06. Two delivery call-site obligations FAIL on the tree under test and are recorded known findings (F34: messages above the control connection's "
+         "property kind, 0..3 elements and every enabled pattern; inheritance of groups is a ground obligation on the real metaclass. Delivery inside the router (every registered client, by policy, for any registry) is re-discharged here on Router.process_message; "
+         "codec, framing and ordering are cited from C03/C02/C19, writes from C06. Two delivery call-site obligations FAIL on the tree under test and are recorded known findings (F34: messages above the control connection's "
          "junk threshold are lost; F35: two unordered connections feed one mirror), hence level 'other', not 'proof'.",
     note="Composition by contract (DESIGN 4 C01). BLOB payloads are mirrored only by clients that enabled BLOBs and not by definitions. Bounded stand-in: native random histories over random driver "
          "definitions with a network client behind the real codec/framing and a snooping client.",
